@@ -22,6 +22,7 @@
 //! got
 //!   {"skipped":true,"why":..} | {"res":"err","msg":..} |
 //!   {"res":"ok","parse":"ok"|"err","raw":{pool,uses,lengths,limits},"diffs":[[kind,path]..],"detail":[..],
+//!    (uses: [[expected kinds, [indices..]]..]; lengths: [[declared, measured]..])
 //!    "methods":[{"m","nt","no","len","T":[item..],"O":[item..],"offs":{"<out index>":offset},"tabs":[[t,d]..]}]}
 //!   items  T: {"k":"r","s":start,"c":count,"h":hash} | {"k":"j","s":index,"op":mnemonic,"t":[tree target index..],"h":hash}
 //!          O: the same with "off" (byte offset) and for jumps "d":[decoded target offset..],"form","len","pad"
@@ -302,14 +303,13 @@ fn split_code(facts: &mut Value) -> Vec<(usize, Vec<Value>, BTreeMap<String, i64
 }
 
 fn raw_summary(raw: &Value) -> Value {
-	let mut seen = BTreeSet::new();
-	let mut uses = Vec::new();
+	// every (index, expected kinds) once, grouped by the expected kinds
+	let mut groups: BTreeMap<String, (Value, BTreeSet<u64>)> = BTreeMap::new();
 	for u in raw["uses"].as_array().map(|a| a.as_slice()).unwrap_or(&[]) {
-		let key = format!("{} {}", u[0], u[1]);
-		if seen.insert(key) {
-			uses.push(json!([u[0], u[1]]));
-		}
+		let g = groups.entry(u[1].to_string()).or_insert_with(|| (u[1].clone(), BTreeSet::new()));
+		g.1.insert(u[0].as_u64().unwrap_or(u64::MAX));
 	}
+	let uses: Vec<Value> = groups.into_values().map(|(k, idx)| json!([k, idx.into_iter().collect::<Vec<_>>()])).collect();
 	let lengths: Vec<Value> = raw["lengths"].as_array().map(|a| a.as_slice()).unwrap_or(&[]).iter().map(|l| json!([l[0], l[1]])).collect();
 	json!({"pool": raw["pool"], "uses": uses, "lengths": lengths, "limits": raw["limits"]})
 }
@@ -520,7 +520,10 @@ fn exec_pool(v: &Value) -> Result<Value> {
 		Err(AsmError::Unencodable(m)) => return Ok(json!({"skipped": true, "why": m})),
 		Err(e) => bail!("pool class: {e}"),
 	};
-	let tree = read(&bytes).context("duke cannot read the pool class")?;
+	let mut tree = read(&bytes).context("duke cannot read the pool class")?;
+	if v["ren"].as_bool() == Some(true) {
+		tree = dukebox::remap::remap_class(&Prefix, tree).context("remap")?;
+	}
 	let mut got = write_and_observe(&tree)?;
 	// what the written file uses for the k-th put: pool index, its kind, the instruction's form
 	if got["res"] == "ok" && got["parse"] == "ok" {
@@ -818,32 +821,30 @@ pub fn gen(seed: u64, n: usize) -> Result<Vec<Value>> {
 		out.push(json!({"op": "write", "id": format!("gen/lvt/{k}"), "variant": "lvt"}));
 		out.push(json!({"op": "write", "id": format!("gen/lvt/{k}"), "variant": "plain"}));
 	}
-	// 2. samples under every standard encoding, corpus classes (all of them in the thorough tier)
+	// 2. samples under every standard encoding (those duke can read), corpus classes (all of them in the thorough tier)
 	let mut ids: Vec<&String> = inputs().keys().collect();
 	ids.sort();
-	let samples: Vec<&String> = ids.iter().copied().filter(|i| i.starts_with("sample/")).collect();
+	let readable = |id: &String| std::panic::catch_unwind(|| read(&inputs()[id]).is_ok()).unwrap_or(true);
+	let samples: Vec<&String> = ids.iter().copied().filter(|i| i.starts_with("sample/")).filter(|i| readable(i)).collect();
 	let corpus: Vec<&String> = ids.iter().copied().filter(|i| !i.starts_with("sample/")).collect();
-	let sample_stride = if thorough { 1 } else { 4 };
+	let sample_stride = if thorough { 1 } else { 5 };
 	for (k, id) in samples.iter().enumerate() {
 		if k % sample_stride == (seed as usize) % sample_stride {
 			out.push(json!({"op": "write", "id": id, "variant": "plain"}));
 		}
-		if k % (sample_stride * 4) == 1 {
+		if k % (sample_stride * 3) == 1 {
 			out.push(json!({"op": "write", "id": id, "variant": "renamed"}));
 		}
 	}
-	let n_layout = if thorough { 600 } else { 60 };
+	let n_layout = if thorough { 600 } else { 50 };
 	let room = n.saturating_sub(out.len() + n_layout);
-	let stride = (corpus.len() / room.max(1)).max(1);
+	let stride = (corpus.len() * 7 / 6 / room.max(1)).max(1);
 	let off = if stride > 1 { r.gen_range(0..stride) } else { 0 };
 	for (k, id) in corpus.iter().enumerate() {
 		if k % stride == off {
 			out.push(json!({"op": "write", "id": id, "variant": "plain"}));
 			if k % (stride * 6) == off {
 				out.push(json!({"op": "write", "id": id, "variant": "renamed"}));
-			}
-			if k % (stride * 5) == off {
-				out.push(json!({"op": "write", "id": id, "variant": "lvt"}));
 			}
 		}
 	}
